@@ -1109,9 +1109,14 @@ class CanBeVaries(Element):
 
         if name is not None and _valid_child_name(name, 'VARIES'):
             # Set name to None because with a VARIES name the Element would raise an Exception
-            Element.__init__(self, None, parent, reference, version,
-                             validation_level, traversal_parent)
+            # (the parent is given afterwards: it accepts the child by its name)
+            Element.__init__(self, None, None, reference, version,
+                             validation_level, None)
             self.name = name.upper()
+            if parent is not None:
+                self.parent = parent
+            elif traversal_parent is not None:
+                self.traversal_parent = traversal_parent
         else:
             try:
                 Element.__init__(self, name, parent, reference, version,
